@@ -113,6 +113,67 @@ def t_handler_basics(E):
     E.prove(h.gosub is None and h.stopped is False and h.triggered is False, 'reset clears everything')
 
 
+class _Clock(object):
+    _pyvc_trusted = True
+    def __init__(self, now):
+        self.now = now
+    def get_time_ms(self):
+        return self.now
+
+
+class _Sound(object):
+    _pyvc_trusted = True
+    def __init__(self, waiting, multivoice):
+        self.waiting, self.multivoice = waiting, multivoice
+    def tones_waiting(self):
+        return self.waiting
+
+
+def t_check_input(E, kind):
+    """An occurrence is recorded (`triggered`) whether or not the trap is stopped - that is what makes
+    "an occurrence while stopped is handled once after ON / RETURN" true; `stopped` is never touched."""
+    from pcbasic.basic.base import signals, scancode
+    stopped, trig0 = E.bool('stopped'), E.bool('triggered')
+    match = E.bool('occurrence matches this handler')
+    if kind == 'key':
+        h = E.new(basicevents.KeyHandler, scancode.F1)
+        sig = signals.Event(signals.KEYB_DOWN, (u'', scancode.F1 if match else scancode.F2, []))
+        swallow = True
+    elif kind == 'key-defined':
+        h = E.new(basicevents.KeyHandler)
+        E.call(h.set_trigger, bytes([4, scancode.a]))
+        mods = [scancode.CTRL] if match else [scancode.ALT]
+        sig = signals.Event(signals.KEYB_DOWN, (u'', scancode.a, mods))
+        swallow = True
+    elif kind == 'pen':
+        h = E.new(basicevents.PenHandler)
+        sig = signals.Event(signals.PEN_DOWN if match else signals.PEN_UP, (1, 1))
+        swallow = False
+    elif kind == 'strig':
+        h = E.new(basicevents.StrigHandler, 0, 1)
+        sig = signals.Event(signals.STICK_DOWN, (0, 1) if match else (1, 1))
+        swallow = False
+    elif kind == 'timer':
+        now = E.int('now', 0, 10**9)
+        h = E.new(basicevents.TimerHandler, _Clock(0))
+        E.call(h.set_trigger, 1000)
+        h.clock.now = now
+        match = now >= 1000
+        sig = signals.Event(None)
+        swallow = False
+    else:
+        raise Unsupported(kind)
+    h.stopped, h.triggered = stopped, trig0
+    r = E.call(h.check_input, sig)
+    E.prove(not r.raised, 'never raises')
+    E.prove(Iff(h.triggered, Or(trig0, match)), 'the occurrence is recorded exactly when it matches - whether or not the trap is stopped')
+    E.prove(Iff(h.stopped, stopped), 'stopped is not touched')
+    if swallow:
+        E.prove(Iff(r.value, match), 'a trapped key is removed from further processing exactly when it matches')
+    else:
+        E.prove(not r.value, 'the signal is left for other consumers')
+
+
 def t_writers(E):
     """Frame: the only stores to .stopped / .triggered / .suspend_all in the package are in the
     functions under contract (AST scan of the current source)."""
@@ -152,6 +213,8 @@ TASKS = [
     Task('BasicEvents.command', t_command, cases=[{'cmd': c} for c in ('on', 'off', 'stop')]),
     Task('EventHandler', t_handler_basics),
     Task('writers of event state (structure)', t_writers),
+    Task('check_input (occurrence recorded)', t_check_input,
+         cases=[{'kind': k} for k in ('key', 'key-defined', 'pen', 'strig', 'timer')]),
 ]
 
 ASSUMPTIONS = [
@@ -159,4 +222,4 @@ ASSUMPTIONS = [
     'the enabled set is iterated in list order in the harness; which eligible handler goes first is not part of the property',
     '"an occurrence while OFF is lost" relies on the input queue calling check_input only for enabled handlers (EventQueues, not covered); COM handlers stay enabled on OFF by design',
 ]
-NOT_COVERED = ['trigger conditions of KEY/TIMER/PLAY/PEN/STRIG/COM check_input', 'EventQueues plumbing and interface threads']
+NOT_COVERED = ['trigger conditions of PLAY/COM check_input (KEY/TIMER/PEN/STRIG are covered)', 'EventQueues plumbing and interface threads']
